@@ -50,6 +50,8 @@ type xListBucket struct {
 	CommonPrefixes        []xPrefix  `xml:"CommonPrefixes"`
 	NextMarker            string     `xml:"NextMarker"`
 	NextContinuationToken string     `xml:"NextContinuationToken"`
+	Prefix                string     `xml:"Prefix"`
+	Delimiter             string     `xml:"Delimiter"`
 	KeyCount              string     `xml:"KeyCount"`
 	MaxKeys               string     `xml:"MaxKeys"`
 }
